@@ -286,6 +286,13 @@ def run_shard(desc, ctx):
                     for name in k.split('|'):
                         table[name] = v
             for key, defn in sorted(table.items()):
+                # a definition that mentions ANOTHER snippet is resolved through the table in effect for the call: when the caller overrides
+                # that other snippet, alias and spliced definition must both follow the override (nothing is resolved ahead of time)
+                refs = [n for n in re.findall(r'[A-Za-z!][\w:!-]*', bare(defn)) if n in table and n != key]
+                for ref in refs[:2]:
+                    over = {'syntax': syntax, 'snippets': {ref: 'x-over[o=1]>x-in'}}
+                    mon.pair('override-ref', key, defn, over, 'builtin-pair', 'oracle:alias-equals-definition')
+                    ctx.ev('override-ref')
                 for label, a, d in pairs_for(key, defn):
                     if label == 'repeat-lorem' and syntax in ('pug', 'haml', 'slim'):
                         continue        # the lorem reader of the harness reads angle-bracket output
